@@ -193,7 +193,7 @@ func (m *SetMon[T]) checkValues(vs []T) {
 
 func (m *SetMon[T]) args(mixed bool) []T {
 	r := m.c.R
-	k := varCount(r)
+	k := varCountBig(r)
 	vs := make([]T, k)
 	for i := range vs {
 		switch {
